@@ -131,13 +131,17 @@ Entry ==
 
 \* for (i = 1; i <= 1024; i++) if (freq[i & 1023].mask & SERV) ...
 \* one step runs the loop up to the next serving ARFCN (the iterations in
-\* between only increment i)
+\* between only increment i); NextServ(k) = first loop index >= k whose
+\* ARFCN is serving, NArfcn + 1 if the loop runs out
+RECURSIVE NextServ(_)
+NextServ(k) == IF k > NArfcn THEN NArfcn + 1
+               ELSE IF (k % NArfcn) \in ca THEN k ELSE NextServ(k + 1)
 Gen ==
   /\ pc = "gen"
-  /\ LET cand == {k \in {Key(a) : a \in ca} : k >= i} IN     \* k in i..1024 with (k & 1023) serving
-     IF cand = {}
+  /\ LET k == NextServ(i) IN
+     IF k > NArfcn
      THEN pc' = "hop" /\ i' = 0
-     ELSE pc' = "gen_write" /\ i' = CHOOSE k \in cand : \A k2 \in cand : k <= k2
+     ELSE pc' = "gen_write" /\ i' = k
   /\ UNCHANGED <<ca, ma, si4, j, f, hopping, hopp_len, hmask, rc>>
 
 \* f[j++] = i & 1023; if (j == (len << 3)) break;
@@ -184,13 +188,13 @@ JBound           == j <= FLen
 HoppLenBound     == hopp_len <= MaxHop
 
 (* Refinement: the returned values are Decode's *)
-Refines ==
+RefinesWith(d) ==
   pc = "done" =>
-    LET d == Decode(ca, ma) IN
     /\ (rc = 0) = d.ok
     /\ d.ok => /\ hopp_len = Len(d.hop)
                /\ \A k \in 1..Len(d.hop) : hopping[k - 1] = d.hop[k]
                /\ si4 => hmask = Range(d.hop)
+Refines == RefinesWith(Decode(ca, ma))
 
 ----------------------------------------------------------------------------
 (* Closed system for model checking: every cell allocation, every bitmap of
